@@ -326,11 +326,17 @@ def fromString (str : String) : Parsed :=
   let s := applyReplacements s
   let s := escapeWords s
   let s := replaceAll "()".toList [] s
-  match tokenize s >>= parseToks with
+  -- `ast.parse(..., "eval")` rejects a text that starts with a blank ("unexpected indent"); the input was
+  -- stripped, so this only happens when a leading `()` was removed
+  let attempt (t : List Char) : Option G :=
+    match t with
+    | c :: _ => if c == ' ' || c == '\t' then none else tokenize t >>= parseToks
+    | [] => none
+  match attempt s with
   | some g => .rule (some (clean g))
   | none =>
     let s2 := if containsSub "AND".toList s || containsSub "OR".toList s then lowerOps s else s
-    match tokenize s2 >>= parseToks with
+    match attempt s2 with
     | some g => .rule (some (clean g))
     | none => .malformed
 
